@@ -105,6 +105,9 @@ class Operation(ElementBase):
     def project_edge(self, corner_1: int, corner_2: int, label: ProjectToType) -> None:
         """Replace an edge between given corners with a Projected one
         or add geometry to an already projected edge"""
+        if not (0 <= corner_1 <= 7 and 0 <= corner_2 <= 7):
+            raise ValueError(f"Corner indexes must be between 0 and 7, got {corner_1} and {corner_2}")
+
         # decide where the required edge sits
         loc = edge_map[corner_1][corner_2]
         corner = loc.start_corner
